@@ -5,8 +5,8 @@
 // broken obligation) or none.  The loops are therefore also numbered VIRTUALLY: in source order, a call of a
 // same-package helper counts as many loops as the helper contains.  loopcanon.json (embedded; written by
 // `leaf -repo <pinned tree> -write-loopcanon translator/leaf/loopcanon.json`) records, for every target,
-// the virtual number of its loop on the pinned tree; at translation time the loop with that virtual number
-// is taken.  On the pinned tree that is the N-th loop (byte-identical output); when the target's own loop
+// the virtual number of its loop on the pinned tree and the number of loops the function has there; when the
+// function has FEWER loops than on the pinned tree (one has left it) the loop with that virtual number is taken.  On the pinned tree that is the N-th loop (byte-identical output); when the target's own loop
 // moved into a helper the target is untranslatable (regeneration unavailable), not mistaken for another
 // loop.  Targets without a record (added later) keep the plain count.
 package main
@@ -23,8 +23,8 @@ import (
 //go:embed loopcanon.json
 var loopCanonJSON []byte
 
-var loopCanon = func() map[string]int {
-	m := map[string]int{}
+var loopCanon = func() map[string][2]int { // target -> (virtual number of its loop, number of real loops) on the pinned tree
+	m := map[string][2]int{}
 	_ = json.Unmarshal(loopCanonJSON, &m)
 	return m
 }()
@@ -148,13 +148,20 @@ func virtualIndex(es []loopEntry, n int) int {
 
 // canonLoopIndex: the number (among the real loops of fd) of the loop the target means
 func (x *tr) canonLoopIndex(fd *ast.FuncDecl, n int, any bool) int {
-	v, ok := loopCanon[x.t.Name]
+	rec, ok := loopCanon[x.t.Name]
 	if !ok || !round3c || n <= 0 {
 		return n
 	}
+	v := rec[0]
 	es := x.p.loopEntries(fd, any)
-	if v > len(es) {
-		return n
+	reals := 0
+	for _, e := range es {
+		if e.real {
+			reals++
+		}
+	}
+	if v > len(es) || reals >= rec[1] {
+		return n // no loop has left the function (a new helper with loops of its own does not renumber anything)
 	}
 	if !es[v-1].real {
 		fail("LoopBody: the loop has moved into a helper function")
@@ -170,7 +177,7 @@ func (x *tr) canonLoopIndex(fd *ast.FuncDecl, n int, any bool) int {
 
 // writeLoopCanon: record the virtual loop numbers of every LoopBody / LoopFrame target on this tree
 func writeLoopCanon(root *rootT, path string) error {
-	m := map[string]int{}
+	m := map[string][2]int{}
 	for _, t := range targets {
 		n, any := t.LoopBody, t.LoopAny
 		if n <= 0 {
@@ -186,8 +193,15 @@ func writeLoopCanon(root *rootT, path string) error {
 			if fd == nil || fd.Body == nil || t.Lit > 0 {
 				return
 			}
-			if v := virtualIndex(p.loopEntries(fd, any), n); v > 0 {
-				m[t.Name] = v
+			es := p.loopEntries(fd, any)
+			reals := 0
+			for _, e := range es {
+				if e.real {
+					reals++
+				}
+			}
+			if v := virtualIndex(es, n); v > 0 {
+				m[t.Name] = [2]int{v, reals}
 			}
 		}()
 	}
